@@ -210,7 +210,8 @@ _SCN_STUBS = ["cJSON: bounded model (model/cjson_model.c): one heap object per n
 _scn = dict(units=_PROTO_UNITS, model=["model/cjson_model.c", "model/alloc_stub.c"], include=["model/alloc_macros.h"],
             unit_defines={"src/peer.c": ["log_peer_err=real_log_peer_err", "log_peer_info=real_log_peer_info"]},
             unwind=6, unwindset={"find_closer_entry_route_table.0": 1, "find_closer_entry_route_table.1": 1,
-                                 "find_closer_entry_element_table.0": 1, "find_closer_entry_element_table.1": 1, "create_matcher.0": 8, "strlen.0": 74, "dupstr.0": 74, "ci_eq.0": 24, "strcmp.0": 24, "strncmp.0": 24, "strncpy.0": 74, "cpystr.0": 22},
+                                 "find_closer_entry_element_table.0": 1, "find_closer_entry_element_table.1": 1, "create_matcher.0": 8, "hash_func_route_table_string.0": 20, "hash_func_element_table_string.0": 8, "strlen.0": 74, "dupstr.0": 74, "ci_eq.0": 24, "strcmp.0": 24, "strncmp.0": 24, "strncpy.0": 74, "cpystr.0": 22},
+            flags=["--max-field-sensitivity-array-size", "256"],
             stubs=_SCN_STUBS, config={"CONFIG_ELEMENT_TABLE_ORDER": 2, "CONFIG_ROUTING_TABLE_ORDER": 2, "CONFIG_INITIAL_FETCH_TABLE_SIZE": 2},
             timeout={"quick": 900, "thorough": 3600})
 _scn_fetch = dict(_scn, harness="harness/scn_fetch.c",
@@ -255,3 +256,32 @@ for _w, _nm in ((0, "add_bad_access"), (1, "fetch_bad_matcher")):
     O(id="C02.response_ownership_" + _nm, props=["C02", "C07"], entry="harness_response_ownership", defines=["WHICH=%d" % _w],
       functions=["init_element", "fill_access", "create_fetch", "add_matchers", "alloc_fetch", "create_error_response_from_request"],
       symbolic="(none: concrete refusal path, accounting checked)", assumes=[], bounds="one refused request", **_scn_rpc)
+
+# ------------------------------------------------------------------------------------------------ C03 routing scenarios
+_scn_route = dict(_scn, harness="harness/scn_route.c",
+                  unwindset=dict(_scn["unwindset"], **{"verif_router_snprintf.0": 10, "verif_router_snprintf.1": 5, "answers_to.0": 12, "answer_to.0": 12,
+                                                       "do_set.0": 12, "harness_route_faults.0": 7, "harness_caller_leaves.0": 12}),
+                  stubs=_SCN_STUBS + ["snprintf in router.c: stand-in for the two id formats (\"%s_%x_%p\", \"%x_%p\")",
+                                      "hash of the routing/element tables: low bits of the key hash; free-slot key NULL, result codes renumbered (model/wrap/hash_abs.h)"])
+_RF = ["set_or_call", "alloc_routing_request", "create_routed_message", "setup_routing_information", "handle_routing_response",
+       "request_timeout_handler", "remove_routing_info_from_peer", "remove_peer_from_routing_table", "clear_routing_entry", "free_peer_resources"]
+for _re, _nm in ((0, "result"), (1, "error")):
+    O(id="C03.reply_" + _nm, props=["C03", "C02", "C07", "C14"], entry="harness_reply", functions=_RF, defines=["REPLY_ERROR=1"] if _re else [],
+      symbolic="set value, reply payload", assumes=["set-up add succeeds"],
+      bounds="skeleton: O add 's'; A set; forged reply; foreign reply; O replies with %s; duplicate reply" % _nm, **_scn_route)
+O(id="C14.timeout", props=["C14", "C03", "C07"], entry="harness_timeout", functions=_RF, symbolic="set value",
+  assumes=["set-up succeeds"], bounds="skeleton: O add 's'; A set; timer expiry; late reply", **_scn_route)
+O(id="C03.owner_leaves", props=["C03", "C05", "C07"], entry="harness_owner_leaves", functions=_RF, symbolic="set value",
+  assumes=["set-up succeeds"], bounds="skeleton: O add 's'; A set (id 7); C set (no id); O disconnects", **_scn_route)
+O(id="C03.bystander_idle", props=["C03", "C05", "C11", "C07"], entry="harness_bystander", functions=_RF, symbolic="set value, reply payload",
+  assumes=["set-up succeeds"], bounds="skeleton: O add 's'; A set; idle C disconnects; O replies", **_scn_route)
+O(id="C03.bystander_with_request", props=["C03", "C05", "C11", "C07"], entry="harness_bystander", defines=["BYSTANDER_HAS_REQUEST=1"], functions=_RF,
+  symbolic="set value, reply payload", assumes=["set-up succeeds"],
+  bounds="skeleton: O add 's'; A set; C set; C disconnects; O replies to A", **_scn_route)
+O(id="C05.caller_leaves", props=["C05", "C03", "C07"], entry="harness_caller_leaves", functions=_RF, symbolic="set value",
+  assumes=["set-up succeeds"], bounds="skeleton: O add 's'; A set; A disconnects; O replies", **_scn_route)
+for _f, _nm, _rch in ((0, "none", ["no_fault"]), (1, "owner_send_fails", ["owner_send_fails"]), (2, "timer_init_fails", []), (3, "timer_start_fails", ["timer_start_fails"])):
+    O(id="C03.route_fault_" + _nm, props=["C03", "C07", "C11"], entry="harness_route_faults", reach=_rch, functions=_RF, defines=["FAULT=%d" % _f],
+      symbolic="set value", assumes=["set-up succeeds"], bounds="skeleton: O add 's'; A set with fault '%s'; remaining timers fire" % _nm, **_scn_route)
+O(id="C03.limit", props=["C03", "C07"], entry="harness_limit", reach=["refused_at_limit"], functions=_RF, symbolic="set value",
+  assumes=["set-up succeeds"], bounds="five sets in flight to one owner, routing table order 2 (4 slots)", **dict(_scn_route, unwind=8))
